@@ -195,3 +195,33 @@ Theorem C06_unknown_spec_is_string : forall s,
   from_spec_with_nullable s = None -> field_of_spec (SPrim s) = FPrim TString.
 Proof. exact unknown_spec_is_string. Qed.
 Print Assumptions C06_unknown_spec_is_string.
+
+(** PERSISTENCE.  The schema in force after a restart is part of the property: [define_p]
+    appends a record to the schema file only for an accepted DEFINE, [restart_p] replays the
+    file (last record of a type wins).  For EVERY history of DEFINEs and restarts the replayed
+    state is the state the process had, so every STORE is judged after the restart as before. *)
+Theorem C06_restart_same_registry : forall ops,
+  restart_p (run_p ops) = run_p ops /\
+  (forall cmd, store_check (ps_reg (restart_p (run_p ops))) cmd = store_check (ps_reg (run_p ops)) cmd).
+Proof. exact restart_same_registry. Qed.
+Print Assumptions C06_restart_same_registry.
+
+(** A DEFINE answered with an error leaves no trace in memory, in the file, or after a restart. *)
+Theorem C06_rejected_define_no_trace : forall ps et cs e,
+  define (ps_reg ps) et cs = DefErr e ->
+  fst (define_p ps et cs) = ps /\ snd (define_p ps et cs) = Some e /\
+  restart_p (fst (define_p ps et cs)) = restart_p ps.
+Proof. exact rejected_define_no_trace_p. Qed.
+Print Assumptions C06_rejected_define_no_trace.
+
+(** The first accepted schema of a type stays in force through later DEFINEs and restarts. *)
+Theorem C06_accepted_schema_survives : forall ops ops' et sc,
+  reg_get (ps_reg (run_p ops)) et = Some sc ->
+  reg_get (ps_reg (run_p (ops ++ ops'))) et = Some sc.
+Proof. exact accepted_schema_survives. Qed.
+Print Assumptions C06_accepted_schema_survives.
+
+(** Replay of a file whose event types are unique is the identity (what the invariant gives). *)
+Theorem C06_replay_unique : forall l, keys_unique l = true -> replay l = l.
+Proof. exact replay_unique. Qed.
+Print Assumptions C06_replay_unique.
